@@ -135,6 +135,16 @@ pub fn run(tier: Tier) -> i32 {
             yo += stride;
         }
         if !tier.thorough() {
+            // the diagonal and its neighbours: both reports carry (nearly) the same raw latitude value
+            for d in -2i64..=2 {
+                let yo = i64::from(ye) + d;
+                if (0..131072).contains(&yo) {
+                    let e = Rep { odd: false, yz: ye, xz: 32768 };
+                    let o = Rep { odd: true, yz: yo as u32, xz: 32768 };
+                    local[compare(&cx, e, o) as usize] += 1;
+                    local[compare(&cx, o, e) as usize] += 1;
+                }
+            }
             // all pairs within +-2 of every j-rounding boundary: 59*ye - 60*yo + 65536 = k * 131072
             for k in -60i64..=60 {
                 let centre = (59 * i64::from(ye) + 65536 - k * 131072) as f64 / 60.0;
